@@ -127,3 +127,31 @@ Proof.
       * eexists; eexists; split; [reflexivity|]. split; [exact I|]. left. cbn. apply upd_eq.
       * eexists; eexists; split; [reflexivity|]. split; [exact I|]. right. cbn. apply upd_eq.
 Qed.
+
+(* ------------------------------------------------------------------ wake initiation (partial) *)
+(* A release that leaves the lock completely free (write unlock, or the LAST read unlock) while a
+   node is linked whose owner is past its fetch_or continues into wake_waiters.  (This is only the
+   initiation half of "wake owed"; that the wake reaches a waiter that can use it is NOT proved
+   for the rwlock.) *)
+Theorem rw_release_wakes progs s t k c u b :
+  reachable (rwsys progs) s -> rpcs s t = RURel k ->
+  (k = WR \/ rd s = 1%N) ->
+  In (u, b) (rqueue s) -> (forall q, rpcs s u <> RQFor q) ->
+  exists s' e, rwstep s t c = Some (s', e) /\ rpcs s' t = RLLSwap RLWake.
+Proof.
+  intros R Epc Hk Hu Hq. destruct (RInv_reachable _ _ R) as (_ & _ & [_ D2]).
+  assert (HH : hq s = true).
+  { destruct (hq s) eqn:EH; [reflexivity|]. destruct (D2 eq_refl u b Hu) as [q Q]. exfalso. exact (Hq q Q). }
+  unfold rwstep. rewrite Epc. unfold rret. destruct k.
+  - destruct Hk as [X|X]; [discriminate X|]. rewrite X, HH. cbn.
+    eexists; eexists; split; [reflexivity|]. cbn. apply upd_eq.
+  - rewrite HH. eexists; eexists; split; [reflexivity|]. cbn. apply upd_eq.
+Qed.
+
+Theorem rw_cancel_forwards_wake s t c :
+  rpcs s t = RDLoad -> rnwk s t = true ->
+  exists s' e, rwstep s t c = Some (s', e) /\ rpcs s' t = RLLSwap RLWake /\ rfut s' t = None.
+Proof.
+  intros Epc Hn. unfold rwstep. rewrite Epc, Hn. unfold rret.
+  eexists; eexists; split; [reflexivity|]. cbn. rewrite !upd_eq. split; reflexivity.
+Qed.
